@@ -30,7 +30,14 @@ MAP = [  # (key in commit subject, id, properties, what it needs to manifest)
     ("compares the real payload sizes", "Q3", ["C14"], "two packets whose different payloads are both a multiple of 65536 bytes long (the 16-bit wire length reads 0)"),
     ("pad the stream-id count in size_t", "G1", ["C13"], "an interface status payload with 65535 stream ids (the largest list the API admits): the padded count wraps to 0 in 16 bits"),
     ("getCrc requires all three CRC bytes", "T6", ["C02"], "a TECMP CAN message with 1 or 2 bytes behind the data"),
+    ("CAN DLC of a data length between two CAN-FD steps", "B2", ["C13", "C11"], "CAN / CAN-FD setData with a length that is not an ISO 11898 step (9..11, 13..15, ... 65..255): DLC 0 next to a non-zero data length"),
+    ("keeps the remaining size in a size_t", "D5", ["C17", "C01"], "a frame of 2^31 + 8 bytes or more for an endpoint with a message in progress (the reassembly is not released), or any such frame (nothing is decoded)"),
+    ("bus-status entries are followed by", "T7", ["C15"], "a TECMP bus-status message that declares per-entry vendor data (vendor data length != 0)"),
+    ("capture-module status whose declared vendor data", "T8", ["C15"], "a TECMP capture-module status message whose declared vendor data length exceeds the bytes behind the 12 generic bytes"),
 ]
+SCR = "/tmp/vfixseed"
+subprocess.run(["git", "-C", "/repo", "worktree", "remove", "--force", SCR], stdout=subprocess.DEVNULL, stderr=subprocess.DEVNULL)
+subprocess.run(["git", "-C", "/repo", "worktree", "add", "-q", "--detach", SCR, "HEAD"], check=True)
 log = subprocess.run(["git", "-C", "/repo", "log", "--format=%H %s"], stdout=subprocess.PIPE).stdout.decode().strip().split("\n")
 for line in log:
     h, subj = line.split(" ", 1)
@@ -43,10 +50,18 @@ for line in log:
     key, fid, props, needs = m[0]
     d = os.path.join(ROOT, "seeded", "fix-" + fid)
     os.makedirs(d, exist_ok=True)
-    diff = subprocess.run(["git", "-C", "/repo", "diff", h, h + "~1", "--", "src", "include"], stdout=subprocess.PIPE).stdout
+    # the reverse of the repair relative to the CURRENT head (later repairs may have touched neighbouring lines): git revert, not a plain reverse diff
+    subprocess.run(["git", "-C", SCR, "reset", "-q", "--hard", "HEAD"], check=True)
+    rv = subprocess.run(["git", "-C", SCR, "revert", "--no-commit", h], stdout=subprocess.PIPE, stderr=subprocess.STDOUT)
+    if rv.returncode != 0:
+        print("fix-" + fid, "REVERT CONFLICT", rv.stdout.decode()[-300:])
+        subprocess.run(["git", "-C", SCR, "revert", "--abort"], stdout=subprocess.DEVNULL, stderr=subprocess.DEVNULL)
+        continue
+    diff = subprocess.run(["git", "-C", SCR, "diff", "HEAD", "--", "src", "include"], stdout=subprocess.PIPE).stdout
     open(os.path.join(d, "patch.diff"), "wb").write(diff)
     meta = {"id": "fix-" + fid, "origin": "reverse of repair commit %s (%s)" % (h[:7], subj), "breaks": props, "needs_to_manifest": needs,
             "suite_still_passes": "yes: the unrepaired code passed the unedited suite (baseline)",
             "demonstration": "demo.replay (minimised script found by the check; `python3 check.py replay seeded/fix-%s/demo.replay` differs with the patch applied and agrees without it)" % fid}
     json.dump(meta, open(os.path.join(d, "meta.json"), "w"), indent=1)
     print("fix-" + fid, props)
+subprocess.run(["git", "-C", "/repo", "worktree", "remove", "--force", SCR], stdout=subprocess.DEVNULL, stderr=subprocess.DEVNULL)
